@@ -93,7 +93,26 @@ func H_C10_fbp() {
 func H_C10_tbe() {
 	n := sxParam("n", 4)
 	m := sxParam("m", 2)
-	ref := genTree(n, sxParam("refrooted", 2), sxParam("binary", 0) == 1)
+	var ref *tree.Tree
+	if k := sxParam("refclade", 0); k > 0 {
+		// fixed reference: a star with one clade of k tips, (((t0..t{k-1}),tk,...);
+		// the bootstrap trees still range over every tree: reaches light sides
+		// of 3 and more at sizes where every reference is out of reach
+		rs := &shape{ntips: n}
+		center, clade := rs.addNode(-1), rs.addNode(-1)
+		rs.link(center, clade)
+		for i := 0; i < n; i++ {
+			tp := rs.addNode(i)
+			if i < k {
+				rs.link(clade, tp)
+			} else {
+				rs.link(center, tp)
+			}
+		}
+		ref = buildTree(rs, center)
+	} else {
+		ref = genTree(n, sxParam("refrooted", 2), sxParam("binary", 0) == 1)
+	}
 	boots := c10boots(n, m, sxParam("bootrooted", 2), sxParam("binary", 0) == 1)
 	full := uint64(1)<<uint(n) - 1
 	var bsides [][]uint64
